@@ -19,6 +19,7 @@ SPEC = Spec(
         "Lean 4.33.0 kernel; axioms per theorem listed under axioms_per_theorem (subset of propext, Classical.choice, Quot.sound)",
         "hand-written model of graph.go createNodes/createEdges/buildComponents and of the consumers' forwarding behaviour, tied by exact differential on every run (build error class, component instance keys and create counts, (exporter, trail) multiset per receiver)",
         "gonum topo.Sort: its code is not modelled; its success condition is modelled by the executable peeling check `sortable`, proved to reject every graph with a closed walk (C09_cycle_rejected, C09_accepted_acyclic) and to reject only graphs with a closed walk (C09_accepts_valid_partial); the error class is part of the differential",
+        "which cycle gonum's topo.DirectedCyclesIn reports is not modelled; the printed cycle is checked by the monitor cycleMsgOk (C09_cycle_message_sound) to be a closed walk of the model's graph starting and ending at the same connector",
         "node identity: the fnv-64a hash of service/internal/attribute is assumed injective on the keys of one configuration (a collision would show as a differing instance set)",
         "instrumented test connectors forward every payload to their whole router (all next pipelines); real connectors may route selectively",
     ],
